@@ -10,7 +10,8 @@
             valid_in, valid_out : BOOLEAN                  -- is_valid_tsv(input), is_valid_tsv(output)
             second_pass_equal   : BOOLEAN                  -- the two written texts are the same string
             cli : [ran : BOOLEAN, lines, nl]               -- file content after the verify step of
-                                                              mokapot.mokapot.main (thorough tier) ]
+                                                              mokapot.mokapot.main (thorough tier)
+            mode : "convert" | "valid"                     -- "valid": only is_valid_tsv(input) was called ]
    (header = lines_in[1], rows_in = the PSM lines of lines_in, rows_out = Tail(lines_out).)
 
    The expected conversion is recomputed from lines_in with the declarative layer of PinTsv.tla
@@ -49,7 +50,15 @@ ClausesIn(exp) ==
                               /\ (D!ValidDef(X) => T.cli.nl = T.nl_in)]
 Order == <<"NoRaise", "Header", "RowCount", "Rect", "Fields", "Proteins", "Exact", "ValidIn", "ValidOut", "Idem", "Cli">>
 Clauses == ClausesIn(D!ConvertDef(X))
-Failed == IF Domain THEN {c \in DOMAIN Clauses : ~Clauses[c]} ELSE {}
+\* mode "valid": only is_valid_tsv(input) was called, on an arbitrary text (lines narrower or wider than the header,
+\* PinValid.tla); the domain is then: a header and at least one more line, no empty field at a line start / end
+ValidOnly == T.mode = "valid"
+ValidDomain == /\ Len(T.lines_in) >= 2
+               /\ \A i \in 1..Len(T.lines_in) : LET ln == T.lines_in[i] IN Len(ln) >= 1 /\ ln[1] # "" /\ ln[Len(ln)] # ""
+Failed == IF ValidOnly THEN (IF ~ValidDomain THEN {}
+                             ELSE (IF T.raised = "" THEN {} ELSE {"NoRaise"}) \cup
+                                  (IF T.valid_in = D!ValidDef(X) THEN {} ELSE {"ValidIn"}))
+          ELSE IF Domain THEN {c \in DOMAIN Clauses : ~Clauses[c]} ELSE {}
 \* printed: the first three failed clauses in Order and "+n" for the n others (line width); the verdict uses Failed
 Shown(F) == LET fs == SelectSeq(Order, LAMBDA c : c \in F) IN
             IF Len(fs) <= 3 THEN F ELSE {fs[1], fs[2], fs[3], "+" \o ToString(Len(fs) - 3)}
@@ -57,5 +66,5 @@ Init == tid \in 1..Len(Traces)
 Spec == Init /\ [][UNCHANGED tid]_tid
 Verdict == LET F == Failed IN
            PrintT(<<"VERDICT", T.tid, IF F = {} THEN "accept" ELSE "reject",
-                    IF Domain THEN Shown(F) ELSE {"OutOfDomain"}>>)
+                    IF (IF ValidOnly THEN ValidDomain ELSE Domain) THEN Shown(F) ELSE {"OutOfDomain"}>>)
 =============================================================================
